@@ -74,6 +74,8 @@ let prune_pred (kind : char) (c : int) (lo : int) (hi : int) (a : int list) : bo
 let parse_pred (tok : string) : z list -> bool =
   let rest = String.sub tok 1 (String.length tok - 1) in
   match tok.[0] with
+  | 'P' -> let i = int_of_string rest in fun a -> fixed_pred i (is_ a)   (* provenance variant of pI *)
+  | 'z' -> let n = int_of_string rest in fun a -> List.length a < n
   | 's' | 'd' | 'e' ->
     let k = tok.[0] in
     (match List.map int_of_string (String.split_on_char ':' rest) with
@@ -129,6 +131,7 @@ let observe (pat : string) (i : int) : int =
     (h lsr 12) land 1
   | 'd' -> 2
   | 'n' -> 0
+  | 'w' | 't' -> 1
   | _ -> failwith "bad call pattern"
 
 let observed (vals : string list) : string list =
@@ -176,7 +179,19 @@ let tree_is_big (l : string list) : bool =
 let opt = function Some x -> x | None -> raise Model_panic
 
 let rec obs_of_line (line : string) : string =
-  if String.length line > 3 && String.sub line 0 3 = "il " then begin
+  let pre = if String.length line > 3 then String.sub line 0 3 else "" in
+  let rest3 () = String.sub line 3 (String.length line - 3) in
+  if pre = "ap " || pre = "sc " then obs_of_line (rest3 ())   (* judged as the plain case in fresh state *)
+  else if pre = "sh " then begin
+    (* two iterators on one caller-owned slice: the model runs them separately *)
+    match List.filter (fun s -> s <> "") (String.split_on_char ' ' (rest3 ())) with
+    | "mcomb" :: k1 :: k2 :: m ->
+      let a = obs_of_line (String.concat " " ("mcomb" :: k1 :: m)) in
+      let b = obs_of_line (String.concat " " ("mcomb" :: k2 :: m)) in
+      a ^ " && " ^ b
+    | _ -> let a = obs_of_line (rest3 ()) in a ^ " && " ^ a
+  end
+  else if pre = "il " || pre = "cb " then begin
     (* interleaved pair: the model runs the two constructor calls separately *)
     let rest = String.sub line 3 (String.length line - 3) in
     let sep = Str.regexp_string " ;; " in
